@@ -270,6 +270,12 @@ theorem HReach.of_E {old new : κ} {h0 h : Heap κ ω α} (e : E old new h0 h) {
     · exact hm
     · rw [Node.ren_links]; exact hm
 
+theorem HReach.tail {h : Heap κ ω α} {n x m : NodeId} {nd : Node κ ω α} (r : HReach h n x)
+    (hx : h.nodes[x]? = some nd) (hm : m ∈ nd.links) : HReach h n m := by
+  induction r with
+  | refl _ => exact .step hx hm (.refl m)
+  | step hn' hm' _ ih => exact .step hn' hm' (ih hx)
+
 /-- **`replace_ids` reaches everything**: after `link.replace_ids(old, new)` on a well-formed
 (acyclic) heap, the object and every object reachable from it through operands are `old`-free —
 however the objects are shared and however often each was visited. -/
@@ -393,5 +399,210 @@ theorem replaceIds_free (old new : κ) (hne : new ≠ old) : ∀ (fuel : Nat) (h
           · exact (f2 _ hm x hy).mono e23
 
 end free
+
+/-! #### `Data.update_id` on the whole data set -/
+
+section update
+variable {κ ω α : Type} [DecidableEq κ]
+
+/-- The pointers of the component table name existing link objects. -/
+def PtrValid (s : State κ ω α) : Prop :=
+  ∀ p ∈ s.t, ∀ n, nodeOf p.2 = some n → n < s.h.nodes.length
+
+def replStep (old new : κ) (h : Heap κ ω α) (p : κ × Comp κ NodeId α) : Heap κ ω α :=
+  match nodeOf p.2 with
+  | some n => replaceIds old new h.fuel h n
+  | none => h
+
+/-- The loop `for component in self._components.values(): component.link.replace_ids(old, new)`:
+afterwards every link object reachable from a pointer of the table is `old`-free, and the heap is
+the original one with some items renamed. -/
+theorem foldRepl_spec (old new : κ) (hne : new ≠ old) (h0 : Heap κ ω α) (hw : h0.WF) :
+    ∀ (es : List (κ × Comp κ NodeId α)) (h : Heap κ ω α), E old new h0 h →
+    (∀ p ∈ es, ∀ n, nodeOf p.2 = some n → n < h0.nodes.length) →
+    E old new h0 (es.foldl (replStep old new) h) ∧
+    (∀ y, FreeAt old h y → FreeAt old (es.foldl (replStep old new) h) y) ∧
+    ∀ p ∈ es, ∀ n, nodeOf p.2 = some n → ∀ x, HReach h0 n x →
+      FreeAt old (es.foldl (replStep old new) h) x
+  | [], h, e, _ => ⟨e, fun _ hf => hf, fun p hp => by simp at hp⟩
+  | p :: es, h, e, hv => by
+    simp only [List.foldl_cons]
+    have e1 : E old new h (replStep old new h p) := by
+      unfold replStep
+      cases hn : nodeOf p.2 with
+      | none => exact E.refl old new h
+      | some n => exact replaceIds_E old new h _ h n (E.refl old new h)
+    obtain ⟨e', mono', free'⟩ := foldRepl_spec old new hne h0 hw es _ (e.trans e1)
+      (fun q hq => hv q (List.mem_cons_of_mem _ hq))
+    refine ⟨e', fun y hf => mono' y (hf.mono e1), ?_⟩
+    intro q hq n hn x hr
+    rcases List.mem_cons.mp hq with rfl | hq
+    · apply mono'
+      have hlt : n < h.fuel := by
+        have hq0 : n < h0.nodes.length := hv q (List.mem_cons_self ..) n hn
+        have hln : h.nodes.length = h0.nodes.length := e.ln
+        show n < h.nodes.length + 1
+        rw [hln]
+        exact Nat.lt_succ_of_lt hq0
+      have := replaceIds_free old new hne h.fuel h n (e.wf hw) hlt x (HReach.of_E e hr)
+      simpa [replStep, hn] using this
+    · exact free' q hq n hn x hr
+
+def renT (old new : κ) : Tgt κ → Tgt κ
+  | .inl k => .inl (ren old new k)
+  | .inr n => .inr n
+
+/-- What evaluating a component of the data set can reach. -/
+def Good (s : State κ ω α) : Tgt κ → Prop
+  | .inl _ => True
+  | .inr x => ∃ p ∈ s.t, ∃ n, nodeOf p.2 = some n ∧ HReach s.h n x
+
+theorem rename_ptr (old new : κ) (c : Comp κ NodeId α)
+    (hc : (∃ a co, c = Comp.prim a co) ∨ (∃ n, c = ptr n)) : c.rename old new = c := by
+  rcases hc with ⟨a, co, rfl⟩ | ⟨n, rfl⟩
+  · rfl
+  · simp [ptr, Comp.rename, Link.replace]
+
+/-- The table part of `update_id` on a pointer table is the renaming of the key. -/
+theorem updateId_false_ptr (t : HTable κ α) (old new : κ) (hne : new ≠ old) (hold : old ∈ t.keys)
+    (hnew : new ∉ t.keys) (hnd : t.keys.Nodup) (hp : PtrTable t) :
+    updateId false t old new = specRename old new t := by
+  have hc : t.keys.contains old = true := by simpa using hold
+  simp only [updateId, hne, if_false, hc, if_true]
+  rw [ofPairs_nodup _ (rename_keys_nodup old new t hnd hnew)]
+  simp only [specRename]
+  apply List.map_congr_left
+  intro p hm
+  rw [rename_ptr old new p.2 (hp p hm)]
+  by_cases h1 : p.1 = old <;> simp [h1]
+
+theorem find_mem : ∀ (t : HTable κ α) (k : κ) (c : Comp κ NodeId α), t.find k = some c → (k, c) ∈ t
+  | [], _, _, h => by simp [Table.find] at h
+  | (k', c') :: rest, k, c, h => by
+    simp only [Table.find] at h
+    by_cases hk : k' = k
+    · simp only [hk, if_true, Option.some.injEq] at h
+      rw [hk, h]; exact List.mem_cons_self ..
+    · simp only [hk, if_false] at h
+      exact List.mem_cons_of_mem _ (find_mem rest k c h)
+
+/-- **`update_id` keeps every value, also through shared link objects.**  On a data set whose
+heap is well formed, with unique identifiers and a pointer table, after the accepted call
+`update_id(old, new)` (`new` not in use) — the loop over the derived components rewriting link
+objects *in place*, an object shared by several expressions being visited once per path — whatever
+value a component (`.inl k`) or a link object the data set can reach (`.inr x`) had at a data
+index, the renamed component / the same object has afterwards. -/
+theorem updateIdH_values (I : Interp ω α) (s : State κ ω α) (old new : κ) (hne : new ≠ old)
+    (hold : old ∈ s.t.keys) (hnew : new ∉ s.t.keys) (hnd : s.t.keys.Nodup) (hp : PtrTable s.t)
+    (hw : s.h.WF) (hv : PtrValid s) (idx : List Int) :
+    ∀ (fuel : Nat) (tgt : Tgt κ) (v : α), Good s tgt → specH I fuel s idx tgt = some v →
+      specH I fuel (updateIdH s old new) idx (renT old new tgt) = some v := by
+  have hc : s.t.keys.contains old = true := by simpa using hold
+  have ht1 : updateId false s.t old new = specRename old new s.t :=
+    updateId_false_ptr s.t old new hne hold hnew hnd hp
+  -- the state after the call
+  have hs' : updateIdH s old new =
+      ⟨(specRename old new s.t).foldl (replStep old new) s.h, specRename old new s.t⟩ := by
+    simp only [updateIdH, hne, if_false, hc, if_true, ht1]
+    rfl
+  rw [hs']
+  -- pointers of the renamed table are the pointers of the table
+  have hvalid : ∀ p ∈ specRename old new s.t, ∀ n, nodeOf p.2 = some n → n < s.h.nodes.length := by
+    intro p hm n hn
+    simp only [specRename, List.mem_map] at hm
+    obtain ⟨q, hq, rfl⟩ := hm
+    simp only [rename_ptr old new q.2 (hp q hq)] at hn
+    exact hv q hq n hn
+  obtain ⟨e', _, free'⟩ := foldRepl_spec old new hne s.h hw (specRename old new s.t) s.h
+    (E.refl old new s.h) hvalid
+  generalize (specRename old new s.t).foldl (replStep old new) s.h = h' at e' free'
+  have hfree : ∀ x, Good s (.inr x) → FreeAt old h' x := by
+    intro x ⟨q, hq, n, hn, hr⟩
+    refine free' (if q.1 = old then new else q.1, q.2.rename old new) ?_ n ?_ x hr
+    · simp only [specRename, List.mem_map]; exact ⟨q, hq, rfl⟩
+    · simp only [rename_ptr old new q.2 (hp q hq)]; exact hn
+  intro fuel
+  induction fuel with
+  | zero => intro tgt v _ h; simp [specH] at h
+  | succ fuel ih =>
+    intro tgt v hg h
+    have ihk : ∀ k u, specH I fuel s idx (.inl k) = some u →
+        specH I fuel ⟨h', specRename old new s.t⟩ idx (.inl (if k = old then new else k)) = some u :=
+      fun k u hu => ih (.inl k) u trivial hu
+    cases tgt with
+    | inl k =>
+      simp only [specH] at h
+      cases hf : s.t.find k with
+      | none => simp [hf] at h
+      | some c =>
+        have hmem := find_mem s.t k c hf
+        have hfr := find_specRename old new s.t k c hnew hf
+        rw [rename_ptr old new c (hp (k, c) hmem)] at hfr
+        simp only [renT, ren, specH, hfr]
+        rcases hp (k, c) hmem with ⟨a, co, rfl⟩ | ⟨n, rfl⟩
+        · simpa [hf] using h
+        · simp only [hf, ptr] at h
+          simp only [ptr]
+          exact ih (.inr n) v ⟨(k, ptr n), hmem, n, rfl, .refl n⟩ h
+    | inr x =>
+      obtain ⟨hnode, hdefs, hcmd⟩ := (hfree x hg).char e'
+      simp only [specH] at h
+      simp only [renT, specH, hnode]
+      cases hn : s.h.nodes[x]? with
+      | none => simp [hn] at h
+      | some nd =>
+        obtain ⟨q, hq, n, hqn, hr⟩ := hg
+        have hgood : ∀ m ∈ nd.links, Good s (.inr m) :=
+          fun m hm => ⟨q, hq, n, hqn, hr.tail hn hm⟩
+        have hop : ∀ (o' : Opnd κ α) (u : α), (∀ m ∈ o'.links, Good s (.inr m)) →
+            specOp (specH I fuel s idx) o' = some u →
+            specOp (specH I fuel ⟨h', specRename old new s.t⟩ idx) (o'.ren old new) = some u := by
+          intro o' u hg' hu
+          cases o' with
+          | const c => exact hu
+          | cid k => exact ihk k u hu
+          | link m => exact ih (.inr m) u (hg' m (by simp [Opnd.links])) hu
+        simp only [hn] at h
+        simp only [hn, Option.map_some]
+        cases nd with
+        | binary o l r frm =>
+          simp only at h
+          simp only [Node.ren]
+          cases hl : specOp (specH I fuel s idx) l with
+          | none => simp [hl] at h
+          | some a =>
+            cases hr' : specOp (specH I fuel s idx) r with
+            | none => simp [hl, hr'] at h
+            | some b =>
+              rw [hop l a (fun m hm => hgood m (by simp [Node.links, hm])) hl,
+                hop r b (fun m hm => hgood m (by simp [Node.links, hm])) hr']
+              simpa [hl, hr'] using h
+        | func f rv frm =>
+          simp only at h
+          simp only [Node.ren, hdefs]
+          cases hd : s.h.defIds[x]? with
+          | none => simp [hd] at h
+          | some fs =>
+            simp only [hd] at h
+            simp only [Option.map_some]
+            cases hm : mapM' (fun k => specH I fuel s idx (.inl k)) fs with
+            | none => simp [hm] at h
+            | some us =>
+              have := mapM'_rename old new (fun k => specH I fuel s idx (.inl k))
+                (fun k => specH I fuel ⟨h', specRename old new s.t⟩ idx (.inl k)) ihk fs us hm
+              unfold ren
+              rw [this]
+              simpa [hm] using h
+        | parsed c frm =>
+          simp only at h
+          simp only [Node.ren, hcmd c frm hn]
+          cases hpc : s.h.cmds[c]? with
+          | none => simp [hpc] at h
+          | some p =>
+            simp only [hpc] at h
+            simp only [Option.map_some]
+            exact PExpr.evalPt_replace I.opf I.negf old new _ _ ihk p v h
+
+end update
 
 end GlueVerif.DerivedHeap
